@@ -7,6 +7,7 @@ import os
 from pathlib import Path
 
 from harness import core
+from harness.gen import pysrc
 
 MODULE = "CddVerif.Properties.C09"
 THEOREMS = [
@@ -81,6 +82,11 @@ def gen_inputs(chk: core.Check):
     for _ in range(6000 if chk.quick else 60000):
         n = rng.randint(maxlen + 1, 14)
         add("".join(rng.choice(ALPHABET) for _ in range(n)), "random-tokens")
+    # Python-shaped structured text (same-line docstrings/comments after headers, decorators, continuations, …)
+    for _ in range(12000 if chk.quick else 150000):
+        add(pysrc.structured(rng), "structured")
+    for x in pysrc.header_tail_grid():
+        add(x, "header-tail-grid")
     # exotic whitespace (the 29 code points of str.isspace) in short contexts
     for w in WS_EXOTIC:
         for ctx in ["%sx=1\n", "#c%s\n", "x%s\n'''a%sb'''\n", "def f():%s\n  pass\n", "%s"]:
